@@ -71,9 +71,6 @@ func (e *Engine) callFunction(st *State, fn *ssa.Function, args []Value, bind []
 	if e.inInit && fn.Pkg != e.Pkg && fn.Pkg != nil && fn.Name() == "init" {
 		return nil
 	}
-	if v, ok := e.intrinsic(st, fn, full, args, site); ok {
-		return v
-	}
 	if h, ok := e.Opts.Stubs[full]; ok {
 		hf := e.Pkg.Func(h)
 		if hf == nil {
@@ -81,6 +78,9 @@ func (e *Engine) callFunction(st *State, fn *ssa.Function, args []Value, bind []
 		}
 		e.StubsUsed[full+" -> "+h]++
 		return e.callFunction(st, hf, args, nil, site)
+	}
+	if v, ok := e.intrinsic(st, fn, full, args, site); ok {
+		return v
 	}
 	if e.Opts.Ignore[full] || e.ignoredByPattern(fn, full) {
 		e.StubsUsed[full+" -> (ignored)"]++
